@@ -12,10 +12,19 @@
 //!     `F <name> <len> <hash>` where the hash is taken over the bytes with the build
 //!     timestamp and the (per-process) directory name removed.  The directory is
 //!     removed afterwards unless `C15_KEEP` is set (then `DIR <path>` is printed too).
+//!     An optional 4th head field `k=v,k=v,…` sets rarely used knobs of the builders of (1)/(2):
+//!     pvis/lvis=0..4 (+5 = PublicIn("crate")) ped/led=15|18|21 pmod/lmod=<ident> rec=C|N lk=1 (lexerkind set
+//!     explicitly) amtl/amtp/lsw/psw=0|1 (allow_missing_terms_in_lexer, allow_missing_tokens_in_parser, show_warnings).
+//! `c15 lexgen`   case `L <hexlex> <NAME=id,NAME=id,…|-> <k=v,k=v,…|->`: a lexer built ALONE (no parser) with a
+//!     user-supplied `CTLexerBuilder::rule_ids_map()` (names are hex; several names may share one id), `reps=<n>`
+//!     times in this process, every time with a freshly constructed map (own hash keys) into its own directory;
+//!     prints `LGEN <ok|err …|panic>` and `F g.l.rs <len> <hash>` per repetition.  Further knobs: st=u8|u16|u32,
+//!     api=build|pf (deprecated `process_file`), mod, vis, ed, lk, amtl, amtp, sw, wae, ci.
 //! `c15 threads`  same case line; serialises grammar+table as the generated code does,
 //!     8 threads first-use one `OnceLock`-guarded `_reconstitute` at the same time and
 //!     each parses all inputs on the shared data; every thread must print what the
 //!     sequential run prints and the initialiser must have run exactly once.
+#![allow(deprecated)]
 use cfgrammar::yacc::YaccKind;
 use gvh::common::*;
 use gvh::util::*;
@@ -266,7 +275,79 @@ struct Case {
     kind: String,
     src: String,
     lex: Option<String>,
+    opts: std::collections::HashMap<String, String>,
     inputs: Vec<String>,
+}
+
+fn parse_opts(s: Option<&str>) -> std::collections::HashMap<String, String> {
+    match s {
+        None | Some("-") => Default::default(),
+        Some(x) => x
+            .split(',')
+            .filter_map(|kv| kv.split_once('=').map(|(a, b)| (a.to_string(), b.to_string())))
+            .collect(),
+    }
+}
+
+fn vis_p(c: &str) -> lrpar::Visibility {
+    match c {
+        "1" => lrpar::Visibility::Public,
+        "2" => lrpar::Visibility::PublicSuper,
+        "3" => lrpar::Visibility::PublicSelf,
+        "4" => lrpar::Visibility::PublicCrate,
+        "5" => lrpar::Visibility::PublicIn("crate".to_string()),
+        _ => lrpar::Visibility::Private,
+    }
+}
+fn vis_l(c: &str) -> lrlex::Visibility {
+    match c {
+        "1" => lrlex::Visibility::Public,
+        "2" => lrlex::Visibility::PublicSuper,
+        "3" => lrlex::Visibility::PublicSelf,
+        "4" => lrlex::Visibility::PublicCrate,
+        "5" => lrlex::Visibility::PublicIn("crate".to_string()),
+        _ => lrlex::Visibility::Private,
+    }
+}
+fn ed_p(c: &str) -> lrpar::RustEdition {
+    match c {
+        "15" => lrpar::RustEdition::Rust2015,
+        "18" => lrpar::RustEdition::Rust2018,
+        _ => lrpar::RustEdition::Rust2021,
+    }
+}
+fn ed_l(c: &str) -> lrlex::RustEdition {
+    match c {
+        "15" => lrlex::RustEdition::Rust2015,
+        "18" => lrlex::RustEdition::Rust2018,
+        _ => lrlex::RustEdition::Rust2021,
+    }
+}
+
+/// the rarely used knobs of the parser builder (4th head field of a case)
+fn knobs_p<'a>(
+    mut ctp: CTParserBuilder<'a, LT>,
+    o: &std::collections::HashMap<String, String>,
+    modname: Option<&'static str>,
+) -> CTParserBuilder<'a, LT> {
+    if let Some(v) = o.get("pvis") {
+        ctp = ctp.visibility(vis_p(v));
+    }
+    if let Some(v) = o.get("ped") {
+        ctp = ctp.rust_edition(ed_p(v));
+    }
+    if let Some(m) = modname {
+        ctp = ctp.mod_name(m);
+    }
+    match o.get("rec").map(|x| x.as_str()) {
+        Some("C") => ctp = ctp.recoverer(RecoveryKind::CPCTPlus),
+        Some("N") => ctp = ctp.recoverer(RecoveryKind::None),
+        _ => (),
+    }
+    if let Some(v) = o.get("psw") {
+        ctp = ctp.show_warnings(v == "1");
+    }
+    ctp
 }
 
 fn parse_case(line: &str) -> Case {
@@ -279,7 +360,8 @@ fn parse_case(line: &str) -> Case {
         None | Some("-") => None,
         Some(h) => Some(unhex(h)),
     };
-    Case { kind, src, lex, inputs: parts.map(|s| s.to_string()).collect() }
+    let opts = parse_opts(hs.next());
+    Case { kind, src, lex, opts, inputs: parts.map(|s| s.to_string()).collect() }
 }
 
 fn inputs_as_tokens(grm: &cfgrammar::yacc::YaccGrammar<u32>, inputs: &[String]) -> Vec<Vec<u32>> {
@@ -377,23 +459,40 @@ fn gen(line: &str) -> String {
     let mut o = String::new();
     // (1) lexer + parser through CTLexerBuilder (default var-int serialisation)
     let dir1 = dir.clone();
+    let leak = |k: &str| -> Option<&'static str> { c.opts.get(k).map(|m| &*Box::leak(m.clone().into_boxed_str())) };
+    let (pmod, lmod) = (leak("pmod"), leak("lmod"));
+    let opts1 = c.opts.clone();
+    let flag = |k: &str, default: bool| c.opts.get(k).map(|v| v == "1").unwrap_or(default);
     let r = catch(std::panic::AssertUnwindSafe(|| {
         let yp = yp.clone();
-        let res = lrlex::CTLexerBuilder::new()
+        let mut ctl = lrlex::CTLexerBuilder::new()
             .lrpar_config(move |ctp| {
-                ctp.yacckind(yk)
-                    .error_on_conflicts(false)
-                    .warnings_are_errors(false)
-                    .show_warnings(false)
-                    .grammar_path(yp.clone())
-                    .output_path(format!("{}/g.y.rs", dir1))
+                knobs_p(
+                    ctp.yacckind(yk).error_on_conflicts(false).warnings_are_errors(false).show_warnings(false),
+                    &opts1,
+                    pmod,
+                )
+                .grammar_path(yp.clone())
+                .output_path(format!("{}/g.y.rs", dir1))
             })
             .lexer_path(lp.clone())
             .output_path(format!("{}/g.l.rs", dir))
-            .show_warnings(false)
-            .allow_missing_terms_in_lexer(true)
-            .allow_missing_tokens_in_parser(true)
-            .build();
+            .show_warnings(flag("lsw", false))
+            .allow_missing_terms_in_lexer(flag("amtl", true))
+            .allow_missing_tokens_in_parser(flag("amtp", true));
+        if let Some(v) = c.opts.get("lvis") {
+            ctl = ctl.visibility(vis_l(v));
+        }
+        if let Some(v) = c.opts.get("led") {
+            ctl = ctl.rust_edition(ed_l(v));
+        }
+        if let Some(m) = lmod {
+            ctl = ctl.mod_name(m);
+        }
+        if c.opts.get("lk").map(|v| v == "1").unwrap_or(false) {
+            ctl = ctl.lexerkind(lrlex::LexerKind::LRNonStreamingLexer);
+        }
+        let res = ctl.build();
         res.map(|_| ()).map_err(|e| format!("{}", e))
     }));
     match r {
@@ -403,11 +502,11 @@ fn gen(line: &str) -> String {
     }
     // (2) parser alone, fixed-int serialisation, other module name
     let r = catch(std::panic::AssertUnwindSafe(|| {
-        let res = CTParserBuilder::<LT>::new()
-            .yacckind(yk)
-            .error_on_conflicts(false)
-            .warnings_are_errors(false)
-            .show_warnings(false)
+        let res = knobs_p(
+            CTParserBuilder::<LT>::new().yacckind(yk).error_on_conflicts(false).warnings_are_errors(false).show_warnings(false),
+            &c.opts,
+            pmod,
+        )
             .serialisation_format(lrpar::ctbuilder::SerialisationFormat::FixedSizeInteger)
             .grammar_path(y2.clone())
             .output_path(format!("{}/h.y.rs", dir))
@@ -466,6 +565,118 @@ fn gen(line: &str) -> String {
         std::fs::remove_dir_all(&dir).ok();
     }
     o
+}
+
+// -------------------------------------------------------------- lexgen mode
+
+macro_rules! lexgen_for {
+    ($name:ident, $t:ty) => {
+        fn $name(lex: &str, map: &[(String, u64)], has_map: bool, o: &std::collections::HashMap<String, String>) -> String {
+            let n = COUNTER.fetch_add(1, Ordering::SeqCst);
+            let dir = format!("/verif/.work/c15/{}-L{}", std::process::id(), n);
+            std::fs::create_dir_all(&dir).expect("mkdir");
+            let lp = format!("{}/g.l", dir);
+            std::fs::write(&lp, lex).unwrap();
+            let reps: usize = o.get("reps").and_then(|x| x.parse().ok()).unwrap_or(1);
+            let modname: Option<&'static str> = o.get("mod").map(|m| &*Box::leak(m.clone().into_boxed_str()));
+            let mut out = String::new();
+            for rep in 0..reps {
+                let rdir = format!("{}/r{}", dir, rep);
+                std::fs::create_dir_all(&rdir).expect("mkdir");
+                let outp = format!("{}/g.l.rs", rdir);
+                // a FRESH map per repetition: equal to all the others, own hash keys; insertion order rotated
+                let mut m: std::collections::HashMap<String, $t> = std::collections::HashMap::new();
+                for i in 0..map.len() {
+                    let (k, v) = &map[(i + rep * 3) % map.len()];
+                    m.insert(k.clone(), *v as $t);
+                }
+                let r = catch(std::panic::AssertUnwindSafe(|| {
+                    let mut ctl = lrlex::CTLexerBuilder::<lrlex::DefaultLexerTypes<$t>>::new_with_lexemet();
+                    if has_map {
+                        ctl = ctl.rule_ids_map(&m);
+                    }
+                    if let Some(v) = o.get("vis") {
+                        ctl = ctl.visibility(vis_l(v));
+                    }
+                    if let Some(v) = o.get("ed") {
+                        ctl = ctl.rust_edition(ed_l(v));
+                    }
+                    if let Some(mn) = modname {
+                        ctl = ctl.mod_name(mn);
+                    }
+                    if o.get("lk").map(|v| v == "1").unwrap_or(false) {
+                        ctl = ctl.lexerkind(lrlex::LexerKind::LRNonStreamingLexer);
+                    }
+                    for (k, f) in [("amtl", 0), ("amtp", 1), ("sw", 2), ("wae", 3), ("ci", 4)] {
+                        if let Some(v) = o.get(k) {
+                            let b = v == "1";
+                            ctl = match f {
+                                0 => ctl.allow_missing_terms_in_lexer(b),
+                                1 => ctl.allow_missing_tokens_in_parser(b),
+                                2 => ctl.show_warnings(b),
+                                3 => ctl.warnings_are_errors(b),
+                                _ => ctl.case_insensitive(b),
+                            };
+                        }
+                    }
+                    if o.get("api").map(|v| v == "pf").unwrap_or(false) {
+                        ctl.process_file(&lp, &outp).map(|_| ()).map_err(|e| format!("{}", e))
+                    } else {
+                        ctl.lexer_path(&lp).output_path(&outp).build().map(|_| ()).map_err(|e| format!("{}", e))
+                    }
+                }));
+                if rep > 0 {
+                    out.push_str(" # ");
+                }
+                match r {
+                    Err(mm) => write!(out, "LGEN panic {}", mm.replace('\n', " ").replace('#', "")).unwrap(),
+                    Ok(Err(e)) => write!(out, "LGEN err {}", e.replace('\n', " ").replace('#', "").replace(&dir, "<DIR>")).unwrap(),
+                    Ok(Ok(())) => write!(out, "LGEN ok").unwrap(),
+                }
+                match std::fs::read(&outp) {
+                    Ok(bytes) => {
+                        let nb = normalise(&bytes, &dir);
+                        write!(out, " # F g.l.rs {} {:016x}{:016x}", nb.len(), fnv(&nb), poly(&nb)).unwrap();
+                    }
+                    Err(_) => write!(out, " # F g.l.rs - -").unwrap(),
+                }
+            }
+            if std::env::var("C15_KEEP").is_ok() {
+                write!(out, " # DIR {}", dir).unwrap();
+            } else {
+                std::fs::remove_dir_all(&dir).ok();
+            }
+            out
+        }
+    };
+}
+lexgen_for!(lexgen_u8, u8);
+lexgen_for!(lexgen_u16, u16);
+lexgen_for!(lexgen_u32, u32);
+
+fn lexgen(line: &str) -> String {
+    let mut hs = line.split_whitespace();
+    if hs.next() != Some("L") {
+        return "BADCASE".to_string();
+    }
+    let lex = unhex(hs.next().unwrap_or(""));
+    let maps = hs.next().unwrap_or("-");
+    let o = parse_opts(hs.next());
+    let has_map = maps != "-";
+    let mut map: Vec<(String, u64)> = Vec::new();
+    if has_map && maps != "=" {
+        for kv in maps.split(',') {
+            match kv.split_once('=') {
+                Some((k, v)) => map.push((unhex(k), v.parse().unwrap_or(0))),
+                None => return "BADCASE".to_string(),
+            }
+        }
+    }
+    match o.get("st").map(|x| x.as_str()) {
+        Some("u8") => lexgen_u8(&lex, &map, has_map, &o),
+        Some("u16") => lexgen_u16(&lex, &map, has_map, &o),
+        _ => lexgen_u32(&lex, &map, has_map, &o),
+    }
 }
 
 // -------------------------------------------------------------- threads mode
@@ -579,11 +790,14 @@ fn threads(line: &str) -> String {
 
 fn main() {
     gvh::quiet_panics();
+    // under OUT_DIR the builders print warnings as `cargo:warning=…` to stdout (our result channel)
+    std::env::remove_var("OUT_DIR");
     let mode = std::env::args().nth(1).unwrap_or_else(|| "digest".to_string());
     for_each_case(move |line| match mode.as_str() {
         "digest" => digest(line),
         "gen" => gen(line),
         "threads" => threads(line),
+        "lexgen" => lexgen(line),
         _ => "BADMODE".to_string(),
     });
 }
